@@ -68,6 +68,21 @@ class C04(PropertyCheck):
                     for n in HUGE:
                         ops = base(size) + [("Rseek", [str(pos)]), ("Rrb", [str(n)]), ("Rru8", []), ("rb", [str(pos), str(n)])]
                         cases.append(Case(pyarchive.render_case(e, 1, ops), "stream-block-reads-huge"))
+        # annotation records that no longer fit after a truncate / deallocate: reading them must be out of bounds (seeded change
+        # C04-6 skipped the bounds check on a map hit), and writing the VALUE 0 over an annotated cell must leave the annotation alone
+        # (seeded change C04-5 dropped the record on a zero write)
+        for e in "LB":
+            for (pre, cut) in ((("wp", ["8", "0"]), ("tr", ["10"])), (("ws", ["8", "B41"]), ("tr", ["9"])), (("wp", ["8", "4"]), ("tr", ["11"])),
+                               (("wp", ["5", "0"]), ("de", ["8", "4", "0"])), (("ws", ["6", "B4142"]), ("de", ["8", "4", "1"]))):
+                a0 = pre[1][0]
+                ops = base(12) + [pre, cut, ("rp", [a0]), ("rs", [a0]), ("rl", [a0]), ("Rseek", [a0]), ("Rrp", []), ("Rseek", [a0]), ("Rrs", []),
+                                  ("ru8", [a0]), ("wu8", [a0, "7"])]
+                cases.append(Case(pyarchive.render_case(e, 1, ops), "stale-annotations"))
+            for a0 in ("0", "4", "5"):
+                for w in ("wu32", "wi32", "wu16", "wu8", "wf32"):
+                    ops = base(12) + [("wp", [a0, "8"]), (w, [a0, "0"]), ("rp", [a0]), ("ws", [a0, "B4142"]), (w, [a0, "0"]), ("rs", [a0]), ("rp", [a0]),
+                                      ("wl", [a0, "B4c"]), (w, [a0, "0"]), ("rl", [a0]), ("Wseek", [a0]), ("W" + w, ["0"]), ("rs", [a0]), ("rp", [a0])]
+                    cases.append(Case(pyarchive.render_case(e, 1, ops), "zero-writes-over-annotations"))
         # value bit patterns
         vals32 = NAN_PATTERNS + [rng.getrandbits(32) for _ in range(40 if tier == "quick" else 400)]
         for e in "LB":
@@ -88,7 +103,7 @@ class C04(PropertyCheck):
             for _ in range(steps):
                 r = rng.random()
                 a = str(rng.choice([rng.randint(0, size + 3), rng.randint(0, max(size, 1))]))
-                v32 = str(rng.getrandbits(32))
+                v32 = str(rng.choice([0, 0, 1, 0xFFFFFFFF, 0x80000000, rng.getrandbits(32), rng.getrandbits(32)]))
                 if r < 0.08:
                     ops.append((rng.choice(["Rseek", "Wseek"]), [a]))
                 elif r < 0.12:
@@ -101,7 +116,7 @@ class C04(PropertyCheck):
                     ops.append(("Rrl", [str(rng.randint(0, 2))]))
                 elif r < 0.60:
                     k = rng.choice([("Wwu8", 8), ("Wwu16", 16), ("Wwu32", 32), ("Wwf32", 32)])
-                    ops.append((k[0], [str(rng.getrandbits(k[1]))]))
+                    ops.append((k[0], [str(rng.choice([0, rng.getrandbits(k[1]), rng.getrandbits(k[1])]))]))
                 elif r < 0.66:
                     k = rng.choice([("Wwi8", 8), ("Wwi16", 16), ("Wwi32", 32)])
                     ops.append((k[0], [str(rng.getrandbits(k[1]) - (1 << (k[1] - 1)))]))
